@@ -176,6 +176,18 @@ class ModelStateTransformer:
     def state(self) -> TuningJobState:
         return self._state
 
+    @property
+    def num_evaluations(self) -> Dict[str, int]:
+        """
+        :return: Number of observed cases for which model parameters were
+            re-fit most recently, for each model (part of the mutable state)
+        """
+        return self._num_evaluations.copy()
+
+    @num_evaluations.setter
+    def num_evaluations(self, value: Dict[str, int]):
+        self._num_evaluations = dict(value)
+
     def _unwrap_from_dict(self, x):
         if self._use_single_model:
             return next(iter(x.values()))
